@@ -101,7 +101,7 @@ def generate(job):
         spec["cache"] = rs.choice([None, None, "dir", "mem"])
         spec["prefetch"] = rs.choice([0, 1, -1])
         for _ in range(rs.randint(3, 9)):
-            k = rs.choice(["iterate", "iterate", "iterate", "iterate_early_stop", "eval", "merge", "copy", "restart", "batch_call"])
+            k = rs.choice(["iterate", "iterate", "iterate", "iterate_early_stop", "eval", "merge", "copy", "restart", "batch_call", "replace_on_copy"])
             spec["ops"].append({"k": k, "b": batch()})
         if spec["cache"] == "dir" and rs.chance(0.4):
             spec["fault"] = {"at": rs.randrange(len(spec["ops"])), "bytes": rs.choice([0, 64, 300, 2000])}
@@ -119,8 +119,8 @@ def generate(job):
         spec["n_part"] = n
         spec["perm"] = rs.shuffle(list(range(n)))
         for _ in range(rs.randint(3, 7)):
-            k = rs.choice(["loadfile", "loadfile", "multifile", "savetxt_raw", "savetxt_processed", "savetxt_processed", "calangle_savetxt", "cal_angle_forms", "save_struct", "cached_data"])
-            spec["ops"].append({"k": k, "fmt": rs.choice(["dat", "npy", "npz"]), "nfile": rs.choice([1, 2, 3]), "z": rs.chance(0.4)})
+            k = rs.choice(["loadfile", "loadfile", "multifile", "savetxt_raw", "savetxt_processed", "savetxt_processed", "calangle_savetxt", "cal_angle_forms", "save_struct", "cached_data", "weight_files"])
+            spec["ops"].append({"k": k, "fmt": rs.choice(["dat", "npy", "npz"]), "nfile": rs.choice([1, 2, 3]), "z": rs.chance(0.4), "wform": rs.choice(["txt", "npy1d", "npycol", "list_npycol", "list_txt", "list_npy1d"])})
         if rs.chance(0.35):
             spec["fault"] = {"at": rs.randrange(len(spec["ops"])), "bytes": rs.choice([0, 40, 200, 1000])}
     return spec
@@ -432,6 +432,22 @@ def run_lazy(spec, log, scratch):
                     c = lz.copy()
                     parts = [dict(p) for p in D.data_split(c, b)]
                     check_batches(parts, b, "copy", i)
+                elif k == "replace_on_copy":
+                    # data_replace / a write to a copy gives a NEW lazy sample; the original keeps its leaves
+                    # (what nll_grad_hessian and the cfit plot helpers do to the data and phsp samples)
+                    w2 = np.arange(N) * 1.0 + 7.0
+                    new = D.data_replace(lz, "weight", w2)
+                    c2 = lz.copy()
+                    c2["tag_only_on_the_copy"] = np.zeros(N)
+                    parts = [dict(p) for p in D.data_split(lz, b)]
+                    if any("tag_only_on_the_copy" in p for p in parts) or ("weight" in parts[0]) != ("weight" in want):
+                        log.fail("lazy-equals-eager", "LazyCall|replace_on_copy|original-gained-a-leaf", "a leaf written to a copy / a replaced leaf shows up in the original lazy sample", step=i)
+                        raise Failure()
+                    check_batches([{kk: v for kk, v in p.items() if kk in want} for p in parts], b, "original-after-data_replace-on-a-copy", i)
+                    got = np.concatenate([np.array(p["weight"]) for p in D.data_split(new, b)], axis=0)
+                    if got.shape != w2.shape or not np.array_equal(got, w2):
+                        log.fail("lazy-equals-eager", "LazyCall|replace_on_copy|replaced-leaf", "data_replace(lazy, 'weight', w) does not deliver w", step=i)
+                        raise Failure()
                 elif k == "restart":
                     # new objects (a new session) on the surviving scratch directory
                     lz = make()
@@ -616,6 +632,46 @@ def run_files(spec, log, scratch):
                 if err:
                     log.fail("file-roundtrip", "save_data|roundtrip", "save_data%s -> load_data: %s" % ("z" if op["z"] else "", err), step=i)
                     raise Failure()
+                compared += 1
+            elif k == "weight_files":
+                # per-event weights (and charges) named in the data section: whatever the layout of the file (text
+                # column, 1-d .npy, (N,1) column .npy; one name or a list of names) the loaded leaf is the (N,)
+                # array that was written
+                arr = interleaved(order)
+                f1 = os.path.join(scratch, "wf_data_%d.npy" % i)
+                np.save(f1, arr)
+                w = 0.25 + np.arange(N) * 0.5
+                q = np.where(np.arange(N) % 3 == 0, -1.0, 1.0)
+                form = op.get("wform", "txt")
+                names_ = []
+                for tag, val in (("w", w), ("q", q)):
+                    wf = os.path.join(scratch, "wf_%s_%d.%s" % (tag, i, "txt" if form.endswith("txt") else "npy"))
+                    with file_size_limit(fault["bytes"]) if faulty else contextlib.nullcontext():
+                        if faulty:
+                            log.count("fault.file_size_limit")
+                        if form.endswith("txt"):
+                            np.savetxt(wf, val)
+                        elif form.endswith("npycol"):
+                            np.save(wf, val.reshape((-1, 1)))
+                        else:
+                            np.save(wf, val)
+                    names_.append([wf] if form.startswith("list_") else wf)
+                c2 = copy.deepcopy(card)
+                c2["data"].update({"data": [f1], "data_weight": names_[0], "data_charge": names_[1]})
+                s1 = ConfigLoader(c2)
+                d = s1.get_data("data")[0]
+                for leaf, val in (("weight", w), ("charge_conjugation", q)):
+                    got = np.array(d[leaf])
+                    if got.shape != (N,) or not np.allclose(got, val, rtol=1e-15, atol=0):
+                        log.fail("file-roundtrip", "weight_files|%s|%s" % (leaf, "shape" if got.shape != (N,) else "content"), "data_%s file (%s): the loaded %s leaf has shape %s, written were %d values" % ("weight" if leaf == "weight" else "charge", form, leaf, got.shape, N), step=i)
+                        raise Failure()
+                pa = {str(kk): np.array(v["p"]) for kk, v in d["particle"].items() if str(kk) in P}
+                # charge -1 events are parity-transformed on loading: compare the charge +1 events only
+                sel = q > 0
+                for kk in P:
+                    if not np.array_equal(pa[kk][sel], P[kk][sel]):
+                        log.fail("particle-assignment", "weight_files|momenta", "momenta of particle %s loaded next to weight/charge files differ from what was written" % kk, step=i)
+                        raise Failure()
                 compared += 1
             elif k == "cached_data":
                 arr = interleaved(order)
